@@ -324,6 +324,10 @@ def run(chk):
     chk.readback(rt)('C14.E', check_encoders, chk)
     if chk._json_roundtrip_ok:
         chk.floors.pop('C14.E', None)
-    aware = chk.guard('C14.S', check_substitutions, chk)
-    chk.guard('C14.N', check_number_cleanup, chk, aware or [])
+    # the automata arguments about the clean-up substitution (universal over texts) are keyed on the spelling `regex.sub(...)` applied to the encoder output: read-backs of C14.R
+    aware = chk.readback(rt)('C14.S', check_substitutions, chk)
+    chk.readback(rt)('C14.N', check_number_cleanup, chk, aware or [])
+    if rt:
+        chk.floors.pop('C14.S', None)
+        chk.floors.pop('C14.N', None)
     chk.guard('C14.K', check_key_serialisation, chk)
